@@ -5,7 +5,10 @@ open XmppVerif.Model.C13 XmppVerif.Util XmppVerif.Drv
 
 def parseAtt : String → Option (Option Attempt)    -- `r` (refused dial for a while) = an unknown number of transients
   | "o" => some (some .ok) | "t" => some (some .transient) | "x" => some (some .transient) | "T" => some (some .transient)
-  | "p" => some (some .permanent) | "P" => some (some .permanent) | "r" => some none | _ => none
+  | "p" => some (some .permanent) | "P" => some (some .permanent) | "r" => some none
+  -- TLS policy failures on a reconnection attempt: a certificate valid for the host name dialled but not for the XMPP
+  -- domain (h), a certificate of an unknown issuer (u)
+  | "h" => some (some .permanent) | "u" => some (some .permanent) | _ => none
 
 structure Parsed where
   script : Script
